@@ -3,7 +3,7 @@
    export agree).  Each case of [step_spec] is a corollary of the owning area's theorem. *)
 From BigNum Require Import Base BaseLemmas AddSub SpecAddSub AddSubProofs ShiftCore Div SpecDiv
   DivProofs DivProofsCore DivProofsApi DivProofsSign Bits SpecBits BitsLemmas BitsProofsU BitsProofsTC
-  BitsProofsI BitsProofsSNB BitDigits Iter Bytes SpecBytes BytesLemmas BytesProofs SignedBytesProofs
+  BitsProofsI BitsProofsSNB BitDigits SrcLit Iter IterProofs Bytes SpecBytes BytesLemmas BytesProofs SignedBytesProofs
   Serde SerdeProofs Sign SpecSign SignProofs FormsAddSubLeaves
   Mul MulProofs PgrLoop PgrLoopProofs Pow SpecPow PowProofs Gcd SpecGcd GcdProofs GcdProofs2
   Roots SpecRoots RootsMath RootsProofs Radix RadixText RadixKernels RadixApi SpecRadix RadixProofs RadixProofs3 RadixInst
@@ -11,9 +11,12 @@ From BigNum Require Import Base BaseLemmas AddSub SpecAddSub AddSubProofs ShiftC
 Open Scope Z_scope.
 
 (** * Vocabulary *)
-Definition hist_ok (P : hist_params) : bool :=
+Definition hist_ok_core (P : hist_params) : bool :=
   addsub_ok (hp_as P) && div_ok (hp_div P) && bits_ok (hp_bits P) &&
   mul_ok (hp_mul P) && pow_ok (hp_pow P) && gcd_ok (hp_gcd P) && roots_ok (hp_roots P) && radix_ok (hp_radix P).
+Definition hist_ok (P : hist_params) : bool :=
+  hist_ok_core P && iter_ok (hp_iter P) && serde_ok (hp_serde P) && bytes_ok (hp_bytes P)
+  && sign_ok (hp_sign P).
 
 (** What the operations that MULTIPLY (`*=`, pow, cbrt, nth_root, lcm) and the text of values of
     64 digits and more rest on: the two statements of property C02 (area `mul`, not yet proved
@@ -60,11 +63,18 @@ Lemma hist_ok_inv P : hist_ok P = true ->
   mul_ok (hp_mul P) = true /\ pow_ok (hp_pow P) = true /\ gcd_ok (hp_gcd P) = true /\
   roots_ok (hp_roots P) = true /\ radix_ok (hp_radix P) = true.
 Proof.
-  unfold hist_ok. intros H.
+  intros H0. assert (H : hist_ok_core P = true) by (unfold hist_ok in H0; rewrite !andb_true_iff in H0; tauto).
+  unfold hist_ok_core in H.
   apply andb_prop in H as [H H8]. apply andb_prop in H as [H H7]. apply andb_prop in H as [H H6].
   apply andb_prop in H as [H H5]. apply andb_prop in H as [H H4]. apply andb_prop in H as [H H3].
   apply andb_prop in H as [H1 H2]. repeat split; assumption.
 Qed.
+
+(** the conditions of the areas whose parameters were added later (iter, ...) *)
+Lemma hist_ok_inv2 P : hist_ok P = true ->
+  iter_ok (hp_iter P) = true /\ serde_ok (hp_serde P) = true /\ bytes_ok (hp_bytes P) = true /\
+  sign_ok (hp_sign P) = true.
+Proof. unfold hist_ok. rewrite !andb_true_iff. tauto. Qed.
 
 (** ** consequences of the two multiplication statements *)
 Section MulFacts.
@@ -292,8 +302,8 @@ Section Step.
     - reflexivity.
     - (* neg *) rewrite ineg_spec by auto. reflexivity.
     - (* not *) rewrite inot_spec by auto. reflexivity.
-    - (* abs *) rewrite iabs_spec by auto. reflexivity.
-    - (* signum *) rewrite isignum_spec by auto. reflexivity.
+    - (* abs *) rewrite iabs_spec by (auto; apply (hist_ok_inv2 P HP)). reflexivity.
+    - (* signum *) rewrite isignum_spec by (auto; apply (hist_ok_inv2 P HP)). reflexivity.
     - (* div_floor *) apply idiv_floor_spec; auto.
     - (* mod_floor *) apply imod_floor_spec; auto.
     - (* div_euclid *) apply idiv_euclid_spec; auto.
@@ -336,8 +346,7 @@ Section Step.
 End Step.
 
 (** * Constructors: whatever redundancy the input has, the object is the canonical one *)
-Lemma ser_sign_z s : ser_sign s = sign_z s. Proof. destruct s; reflexivity. Qed.
-Lemma ser_sign_ok s : (ser_sign s =? -1) || (ser_sign s =? 0) || (ser_sign s =? 1) = true.
+Lemma ser_sign_ok s : (sign_z s =? -1) || (sign_z s =? 0) || (sign_z s =? 1) = true.
 Proof. destruct s; reflexivity. Qed.
 Lemma words_is_word w : inb (2 ^ 32) w -> forallb is_word w = true.
 Proof. intros H. change (forallb is_word w) with (forallb is_u32 w). apply is_u32_inb. exact H. Qed.
@@ -367,19 +376,19 @@ Proof.
   - unfold biguint_from_vec. rewrite enc_strip by auto. reflexivity.
   - rewrite unew_spec by auto. reflexivity.
   - rewrite ufrom_slice_spec by auto. reflexivity.
-  - rewrite ufrom_bytes_le_spec by auto. reflexivity.
-  - rewrite ufrom_bytes_be_spec by auto. reflexivity.
-  - rewrite de_biguint_tokens_spec. unfold spec_de. rewrite words_is_word by auto. reflexivity.
+  - rewrite ufrom_bytes_le_spec by (auto; apply (hist_ok_inv2 P HP)). reflexivity.
+  - rewrite ufrom_bytes_be_spec by (auto; apply (hist_ok_inv2 P HP)). reflexivity.
+  - rewrite de_biguint_tokens_spec by apply (hist_ok_inv2 P HP). unfold spec_de. rewrite words_is_word by auto. reflexivity.
   - unfold biguint_from_vec. rewrite from_biguint_ienc by (apply canon_strip; auto). rewrite val_strip. reflexivity.
   - rewrite inew_spec by auto. reflexivity.
   - rewrite ifrom_slice_spec by auto. reflexivity.
-  - rewrite ifrom_bytes_le_spec by auto. reflexivity.
-  - rewrite ifrom_bytes_be_spec by auto. reflexivity.
-  - rewrite from_signed_bytes_le_spec by auto. reflexivity.
-  - rewrite from_signed_bytes_be_spec by auto. reflexivity.
-  - rewrite de_bigint_spec. unfold spec_ide, spec_de. rewrite ser_sign_ok, words_is_word by auto.
-    cbn [option_map of_opt bind]. rewrite ser_sign_z. reflexivity.
-  - unfold biguint_from_vec. rewrite ifrom_u_spec by (apply canon_strip; auto). rewrite val_strip. reflexivity.
+  - rewrite ifrom_bytes_le_spec by (auto; apply (hist_ok_inv2 P HP)). reflexivity.
+  - rewrite ifrom_bytes_be_spec by (auto; apply (hist_ok_inv2 P HP)). reflexivity.
+  - rewrite from_signed_bytes_le_spec by (auto; apply (hist_ok_inv2 P HP)). reflexivity.
+  - rewrite from_signed_bytes_be_spec by (auto; apply (hist_ok_inv2 P HP)). reflexivity.
+  - rewrite de_bigint_spec by apply (hist_ok_inv2 P HP). unfold spec_ide, spec_de. rewrite ser_sign_ok, words_is_word by auto.
+    cbn [option_map of_opt bind]. reflexivity.
+  - unfold biguint_from_vec. rewrite ifrom_u_spec by (try apply (hist_ok_inv2 P HP); apply canon_strip; auto). rewrite val_strip. reflexivity.
   - destruct H as [Hb Hr]. destruct (radix_le_ok b r Hb Hr) as [By E].
     rewrite inst_from_radix_le by auto. rewrite E. reflexivity.
   - destruct H as [Hb Hr]. destruct (radix_le_ok (rev b) r (inb_rev _ _ Hb) Hr) as [_ E].
@@ -635,23 +644,24 @@ Proof.
 Qed.
 
 (** ** Ord *)
-Theorem ocmp_spec a b : ocanon a -> ocanon b -> okind a = okind b -> ocmp a b = Ret (oval a ?= oval b).
+Theorem ocmp_spec sp a b : sign_ok sp = true -> ocanon a -> ocanon b -> okind a = okind b ->
+  ocmp sp a b = Ret (oval a ?= oval b).
 Proof.
-  destruct a, b; cbn; intros Ca Cb K; try discriminate.
+  intros Hsp. destruct a, b; cbn; intros Ca Cb K; try discriminate.
   - apply cmp_slice_spec; auto.
   - apply icmp_spec; auto.
 Qed.
 
-Theorem omax_spec a b : ocanon a -> ocanon b -> okind a = okind b ->
-  exists m, omax a b = Ret m /\ (m = a \/ m = b) /\ oval m = Z.max (oval a) (oval b).
+Theorem omax_spec sp a b : sign_ok sp = true -> ocanon a -> ocanon b -> okind a = okind b ->
+  exists m, omax sp a b = Ret m /\ (m = a \/ m = b) /\ oval m = Z.max (oval a) (oval b).
 Proof.
-  intros Ca Cb K. unfold omax. rewrite ocmp_spec by auto. cbn [bind].
+  intros Hsp Ca Cb K. unfold omax. rewrite ocmp_spec by auto. cbn [bind].
   destruct (Z.compare_spec (oval a) (oval b)); eexists; (split; [reflexivity|]); split; auto; lia.
 Qed.
-Theorem omin_spec a b : ocanon a -> ocanon b -> okind a = okind b ->
-  exists m, omin a b = Ret m /\ (m = a \/ m = b) /\ oval m = Z.min (oval a) (oval b).
+Theorem omin_spec sp a b : sign_ok sp = true -> ocanon a -> ocanon b -> okind a = okind b ->
+  exists m, omin sp a b = Ret m /\ (m = a \/ m = b) /\ oval m = Z.min (oval a) (oval b).
 Proof.
-  intros Ca Cb K. unfold omin. rewrite ocmp_spec by auto. cbn [bind].
+  intros Hsp Ca Cb K. unfold omin. rewrite ocmp_spec by auto. cbn [bind].
   destruct (Z.compare_spec (oval a) (oval b)); eexists; (split; [reflexivity|]); split; auto; lia.
 Qed.
 
@@ -660,10 +670,10 @@ From Coq Require Import Sorting.Permutation Sorting.Sorted.
 Definition good (k : kind) (s : obj) : Prop := ocanon s /\ okind s = k.
 Definition vle (a b : obj) : Prop := oval a <= oval b.
 
-Lemma oinsert_spec k x : good k x -> forall l, Forall (good k) l -> StronglySorted vle l ->
-  exists r, oinsert x l = Ret r /\ Permutation (x :: l) r /\ StronglySorted vle r /\ Forall (good k) r.
+Lemma oinsert_spec sp k x : sign_ok sp = true -> good k x -> forall l, Forall (good k) l -> StronglySorted vle l ->
+  exists r, oinsert sp x l = Ret r /\ Permutation (x :: l) r /\ StronglySorted vle r /\ Forall (good k) r.
 Proof.
-  intros [Cx Kx]. induction l as [|y l IH]; intros Hl Hs; cbn [oinsert].
+  intros Hsp [Cx Kx]. induction l as [|y l IH]; intros Hl Hs; cbn [oinsert].
   - exists [x]. repeat split; auto. repeat constructor. repeat constructor; auto.
   - inversion Hl as [|? ? [Cy Ky] Hl']; subst. inversion Hs as [|? ? Hs' Hy]; subst.
     rewrite ocmp_spec by (auto; congruence). cbn [bind].
@@ -684,15 +694,15 @@ Proof.
       * constructor; auto. split; auto.
 Qed.
 
-Theorem osort_spec k l : Forall (good k) l ->
-  exists r, osort l = Ret r /\ Permutation l r /\ StronglySorted vle r.
+Theorem osort_spec sp k l : sign_ok sp = true -> Forall (good k) l ->
+  exists r, osort sp l = Ret r /\ Permutation l r /\ StronglySorted vle r.
 Proof.
-  intros Hl.
-  assert (exists r, osort l = Ret r /\ Permutation l r /\ StronglySorted vle r /\ Forall (good k) r) as (r & E & Pm & S & _).
+  intros Hsp Hl.
+  assert (exists r, osort sp l = Ret r /\ Permutation l r /\ StronglySorted vle r /\ Forall (good k) r) as (r & E & Pm & S & _).
   { induction l as [|x l IH]; cbn [osort].
     - exists []. repeat split; constructor.
     - inversion Hl as [|? ? Hx Hl']; subst. destruct (IH Hl') as (r & E & Pm & Sr & Gr). rewrite E. cbn [bind].
-      destruct (oinsert_spec k x Hx r Gr Sr) as (r' & E' & Pm' & Sr' & Gr'). exists r'. repeat split; auto.
+      destruct (oinsert_spec sp k x Hsp Hx r Gr Sr) as (r' & E' & Pm' & Sr' & Gr'). exists r'. repeat split; auto.
       eapply perm_trans; [|exact Pm']. constructor. exact Pm. }
   eauto.
 Qed.
@@ -767,22 +777,22 @@ Section Exports.
     - assert (W : wf d) by apply C.
       destruct e; cbn [export_of sexport]; cbn in Hin;
         try (exfalso; intuition discriminate).
-      + apply uto_u32_digits_spec; auto.
+      + apply uto_u32_digits_spec; auto. apply (hist_ok_inv2 P HP).
       + rewrite uto_u64_digits_spec by auto. reflexivity.
-      + apply uto_bytes_le_spec; auto.
-      + apply uto_bytes_be_spec; auto.
+      + apply uto_bytes_le_spec; auto; apply (hist_ok_inv2 P HP).
+      + apply uto_bytes_be_spec; auto; apply (hist_ok_inv2 P HP).
       + rewrite ubits_spec by auto. reflexivity.
       + rewrite ucount_ones_spec by auto. reflexivity.
       + rewrite utrailing_zeros_spec by auto. reflexivity.
       + apply inst_to_str_radix; auto. apply (text_ok_small_or_umul (OU d)). auto.
     - destruct e; cbn [export_of sexport]; cbn in Hin;
         try (exfalso; intuition discriminate).
-      + rewrite ito_u32_digits_spec by auto. reflexivity.
+      + rewrite ito_u32_digits_spec by (auto; apply (hist_ok_inv2 P HP)). reflexivity.
       + rewrite ito_u64_digits_spec by auto. reflexivity.
-      + rewrite ito_bytes_le_spec by auto. reflexivity.
-      + rewrite ito_bytes_be_spec by auto. reflexivity.
-      + apply to_signed_bytes_le_spec; auto.
-      + apply to_signed_bytes_be_spec; auto.
+      + rewrite ito_bytes_le_spec by (auto; apply (hist_ok_inv2 P HP)). reflexivity.
+      + rewrite ito_bytes_be_spec by (auto; apply (hist_ok_inv2 P HP)). reflexivity.
+      + apply to_signed_bytes_le_spec; auto; apply (hist_ok_inv2 P HP).
+      + apply to_signed_bytes_be_spec; auto; apply (hist_ok_inv2 P HP).
       + rewrite ibits_spec by auto. reflexivity.
       + rewrite itrailing_zeros_spec by auto. reflexivity.
       + apply inst_ito_str_radix; auto. apply (text_ok_small_or_umul (OI x)). auto.
@@ -821,14 +831,14 @@ Section Top.
     history P ca opsa = Ret a -> history P cb opsb = Ret b -> okind a = okind b ->
     (oval a = oval b -> a = b) /\
     oeq a b = Ret (oval a =? oval b) /\
-    ocmp a b = Ret (oval a ?= oval b) /\
+    ocmp (hp_sign P) a b = Ret (oval a ?= oval b) /\
     (oval a = oval b -> hash_stream a = hash_stream b) /\
     (hash_stream a = hash_stream b -> oval a = oval b) /\
     (forall e, In e (exports_for a) -> (is_text e = true -> text_ok a) ->
                export_of P e a = sexport (okind a) e (oval a)) /\
     (forall e, oval a = oval b -> export_of P e a = export_of P e b) /\
-    (exists m, omax a b = Ret m /\ (m = a \/ m = b) /\ oval m = Z.max (oval a) (oval b)) /\
-    (exists m, omin a b = Ret m /\ (m = a \/ m = b) /\ oval m = Z.min (oval a) (oval b)) /\
+    (exists m, omax (hp_sign P) a b = Ret m /\ (m = a \/ m = b) /\ oval m = Z.max (oval a) (oval b)) /\
+    (exists m, omin (hp_sign P) a b = Ret m /\ (m = a \/ m = b) /\ oval m = Z.min (oval a) (oval b)) /\
     (osign a = NoSign <-> oval a = 0).
   Proof.
     intros Hca Hwa Hcb Hwb Ea Eb K.
@@ -836,13 +846,13 @@ Section Top.
     pose proof (history_canon cb opsb b Hcb Hwb Eb) as Cb.
     split; [apply ocanon_inj; auto|].
     split; [apply oeq_spec; auto|].
-    split; [apply ocmp_spec; auto|].
+    split; [apply ocmp_spec; auto; apply (hist_ok_inv2 P HP)|].
     split; [apply hash_fun; auto|].
     split; [apply hash_inj; auto|].
     split; [intros e; apply export_spec; auto|].
     split; [intros e; apply export_fun; auto|].
-    split; [apply omax_spec; auto|].
-    split; [apply omin_spec; auto|].
+    split; [apply omax_spec; auto; apply (hist_ok_inv2 P HP)|].
+    split; [apply omin_spec; auto; apply (hist_ok_inv2 P HP)|].
     destruct a as [d|x]; cbn [osign oval].
     - destruct d as [|d0 d']; [cbn; tauto|]. split; [discriminate|]. intros V.
       pose proof (canon_val_zero _ Ca V). discriminate.
